@@ -280,6 +280,7 @@ func Conclude(cfg *Config, sum *Summary) int {
 			"max_depth_reached":             sum.MaxDepth,
 			"distinct_outcomes":             sum.Outcomes,
 			"blocks_failed":                 sum.Blocked,
+			"blocks_failed_at":              sum.BlockedAt,
 			"txs_ok":                        sum.OkTxs,
 			"txs_failed":                    sum.FailedTxs,
 			"clause_evaluations":            sum.Clauses,
@@ -292,6 +293,11 @@ func Conclude(cfg *Config, sum *Summary) int {
 	WriteEvidence(ev)
 	fmt.Printf("%s %s: states=%d transitions=%d validated=%d outcomes=%d blocks_failed=%d exhaustive=%v violations=%d wall=%.1fs\n",
 		cfg.Property, cfg.Tier, sum.States, sum.Transitions, sum.Validated, sum.Outcomes, sum.Blocked, ev.Coverage["exhaustive"], nvio, sum.Wall)
+	if !cfg.BlockFailure {
+		for _, b := range sum.BlockedAt {
+			fmt.Println("NOTE: block processing failed (judged by C18, not by this property):", firstLines(b, 2))
+		}
+	}
 	if len(sum.HarnessErrs) > 0 {
 		for _, e := range sum.HarnessErrs {
 			fmt.Println("HARNESS-ERROR:", firstLines(e, 8))
